@@ -4,6 +4,7 @@ package rules
 import (
 	"fmt"
 	"go/token"
+	"go/types"
 	"sort"
 	"strings"
 
@@ -198,6 +199,149 @@ func Common(id string, p *core.Prog, r *core.Report) {
 		r.Hold(id+".x", "no-remove-while-iterating", "", "no in-place removal at the loop index that is followed by the next index")
 	}
 
+	// an error that is only logged does not make the result usable: after `v, err := f()` a dereference of v is not
+	// reachable from the branch on which err is non-nil (the dropped `else` / missing return)
+	nf := 0
+	for _, f := range fns {
+		core.EachInstr(f, func(in ssa.Instruction) {
+			call, ok := in.(*ssa.Call)
+			if !ok {
+				return
+			}
+			sig := call.Call.Signature()
+			n := sig.Results().Len()
+			if n < 2 || !core.IsErrorType(sig.Results().At(n-1).Type()) {
+				return
+			}
+			errEx := core.ExtractOf(call, n-1)
+			if errEx == nil {
+				return
+			}
+			for idx := 0; idx < n-1; idx++ {
+				switch sig.Results().At(idx).Type().Underlying().(type) {
+				case *types.Pointer, *types.Interface:
+				default:
+					continue
+				}
+				v := core.ExtractOf(call, idx)
+				if v == nil || v.Referrers() == nil {
+					continue
+				}
+				est := guardEdges(ds, f, core.NonNilGuard(ds, v))
+				for _, b := range f.Blocks {
+					iff, isIf := b.Instrs[len(b.Instrs)-1].(*ssa.If)
+					if !isIf {
+						continue
+					}
+					c := core.DecodeCond(ds, iff)
+					s := core.ErrNilSucc(c, errEx)
+					if s < 0 {
+						continue
+					}
+					failed := 1 - s
+					for _, use := range *v.Referrers() {
+						if !core.IsDerefUse(v, use) {
+							continue
+						}
+						w := core.PathQuery{Fn: f, StartEdge: &[2]*ssa.BasicBlock{b, b.Succs[failed]}, Target: func(x ssa.Instruction) bool { return x == use }, Edge: func(bb *ssa.BasicBlock, succ int) bool {
+							if e, ok := est[bb]; ok && e == succ {
+								return false
+							}
+							return bb.Succs[succ] != call.Block() // the call executed again (a retry loop) gives a new result
+						}}.Find()
+						if w != nil {
+							nf++
+							r.Violate(id+".x", fmt.Sprintf("%s|result-used-after-error|%s", core.FnKey(f), ds.D(v).String()), p.Pos(use.Pos()), "the result of "+core.CalleeName(&call.Call)+" is dereferenced on a path that continues after its error was found non-nil (the error is logged, not left): by contract the result is nil there, so the failure becomes a crash", p.WitnessText(w)...)
+							return
+						}
+					}
+				}
+			}
+		})
+	}
+	if nf == 0 {
+		r.Hold(id+".x", "no-result-used-after-error", "", "no dereference of a call's result is reachable from the branch on which its error is non-nil")
+	}
+
+	// units: a slot count is not an epoch count — a value of one type is never re-typed as the other (the conversion
+	// goes through the chain-time service or through slotsPerEpoch); and a ratio is not computed in integers and
+	// converted afterwards (float64(a/b) is 0 or 1 for a <= b)
+	nu := 0
+	for _, f := range fns {
+		core.EachInstr(f, func(in ssa.Instruction) {
+			var from, to types.Type
+			var x ssa.Value
+			switch c := in.(type) {
+			case *ssa.ChangeType:
+				from, to, x = c.X.Type(), c.Type(), c.X
+			case *ssa.Convert:
+				from, to, x = c.X.Type(), c.Type(), c.X
+			default:
+				return
+			}
+			fs, ts := from.String(), to.String()
+			isEpoch := func(s string) bool { return strings.HasSuffix(s, "phase0.Epoch") }
+			isSlot := func(s string) bool { return strings.HasSuffix(s, "phase0.Slot") }
+			if (isEpoch(fs) && isSlot(ts)) || (isSlot(fs) && isEpoch(ts)) {
+				scaled := false // slot/slotsPerEpoch re-typed as an epoch, epoch*slotsPerEpoch as a slot: the conversion itself
+				if b, ok := x.(*ssa.BinOp); ok && (b.Op == token.QUO || b.Op == token.MUL) {
+					scaled = true
+				}
+				if _, isConst := x.(*ssa.Const); !isConst && !scaled {
+					nu++
+					r.Violate(id+".x", fmt.Sprintf("%s|unit-cast#%d", core.FnKey(f), nu), p.Pos(in.Pos()), "a value of type "+fs+" is re-typed as "+ts+" ("+ds.D(x).String()+"): an epoch number used as a slot number (or the reverse) is off by the factor slots-per-epoch")
+				}
+			}
+			if tb, ok := to.Underlying().(*types.Basic); ok && tb.Info()&types.IsFloat != 0 {
+				if q, ok := x.(*ssa.BinOp); ok && q.Op == token.QUO {
+					if qb, ok := q.Type().Underlying().(*types.Basic); ok && qb.Info()&types.IsInteger != 0 {
+						if _, constDiv := q.Y.(*ssa.Const); !constDiv {
+							nu++
+							r.Violate(id+".x", fmt.Sprintf("%s|integer-ratio#%d", core.FnKey(f), nu), p.Pos(in.Pos()), "the ratio "+ds.D(q).String()+" is computed in integers and converted to a floating-point number afterwards: every ratio below one becomes 0, so the values it is meant to rank are all equal")
+						}
+					}
+				}
+			}
+		})
+	}
+	if nu == 0 {
+		r.Hold(id+".x", "no-unit-cast-no-integer-ratio", "", "no epoch/slot re-typing and no integer ratio converted to floating point")
+	}
+
+	// data handed in by the caller is not reordered in place: sort.* / slices.Sort* of a slice parameter (or a plain
+	// copy of the slice header) changes the caller's parallel arrays
+	ns := 0
+	for _, f := range fns {
+		for _, ci := range core.Calls(f, func(c *ssa.CallCommon) bool {
+			n := core.CalleeName(c)
+			return strings.HasPrefix(n, "sort.") || strings.HasPrefix(n, "slices.Sort") || strings.HasPrefix(n, "slices.Reverse")
+		}) {
+			if len(ci.Common().Args) == 0 {
+				continue
+			}
+			a := ci.Common().Args[0]
+			for k := 0; k < 4; k++ {
+				switch y := a.(type) {
+				case *ssa.MakeInterface:
+					a = y.X
+				case *ssa.ChangeType:
+					a = y.X
+				case *ssa.Slice:
+					a = y.X
+				}
+			}
+			if prm, ok := a.(*ssa.Parameter); ok {
+				if _, isSlice := prm.Type().Underlying().(*types.Slice); isSlice {
+					ns++
+					r.Violate(id+".x", fmt.Sprintf("%s|sorts-parameter|%s", core.FnKey(f), prm.Name()), p.Pos(ci.Pos()), "the slice parameter "+prm.Name()+" is sorted in place: the caller's array — one of several parallel per-validator arrays — is reordered, so entry i no longer belongs to validator i")
+				}
+			}
+		}
+	}
+	if ns == 0 {
+		r.Hold(id+".x", "no-parameter-sorted-in-place", "", "no slice parameter is sorted in place")
+	}
+
 	// wait groups balance; fan-outs do not run under a fail-fast (errgroup) context; coalesced requests are keyed by the request
 	checkWaitGroupBalance(p, r, id+".x", fns, "the caller blocks for ever (and keeps what it holds)")
 	for _, f := range fns {
@@ -229,11 +373,13 @@ var imports = map[string][]string{
 	"C03": {"C02.d", "C02.i"},
 	"C09": {"C11.i", "C16.i"},
 	"C10": {"C12.j"},
-	"C11": {"C12.l", "C12.m", "C12.j", "C10.f", "C10.k"},
-	"C15": {"C17.i", "C13.c", "C17.h"},
-	"C20": {"C02.d", "C05.e", "C12.l"},
-	"C05": {"C06.g"},
+	"C11": {"C12.l", "C12.m", "C12.j", "C10.f", "C10.k", "C10.e"},
+	"C15": {"C17.i", "C13.c", "C17.h", "C03.t"},
+	"C20": {"C02.d", "C05.e", "C12.l", "C18.e"},
+	"C05": {"C06.g", "C09.e"},
 	"C04": {"C06.g", "C03.j"},
+	"C08": {"C19.8"},
+	"C14": {"C03.o", "C03.f"},
 }
 
 // RunImports takes over the listed sibling obligations into r (rule id "<this>.y", construct prefixed by the origin).
